@@ -93,7 +93,7 @@ func (x *executor) step(m *machine, fr *frame, in ssa.Instruction) {
 		case *types.Slice:
 			s := x.term(m, fr, in.X)
 			x.oblige(m, "bounds", x.instrName(fr, in, "bounds"), mkAnd(c.cmp(token.LEQ, c.I(0), idx, intT), c.cmp(token.LSS, idx, c.slLen(s), intT)), nil, "index in range")
-			abs := c.arith(token.ADD, c.slOff(s), idx, intT, nil)
+			abs := c.ix(c.slOff(s), idx)
 			fr.env[in] = Val{ptr: &Ptr{kind: pkElem, ref: c.slRef(s), idx: abs, base: u.Elem()}, typ: in.Type()}
 		case *types.Pointer:
 			at := u.Elem().Underlying().(*types.Array)
@@ -123,7 +123,7 @@ func (x *executor) step(m *machine, fr *frame, in ssa.Instruction) {
 	case *ssa.MakeSlice:
 		ln := x.toIntTerm(m, fr, in.Len)
 		cp := x.toIntTerm(m, fr, in.Cap)
-		x.oblige(m, "neg-len", x.instrName(fr, in, "neg-len"), mkAnd(c.cmp(token.LEQ, c.I(0), ln, intT), c.cmp(token.LEQ, ln, cp, intT), c.cmp(token.LEQ, cp, c.I(1<<40), intT)), nil, "make: 0 <= len <= cap")
+		x.oblige(m, "neg-len", x.instrName(fr, in, "neg-len"), mkAnd(c.cmp(token.LEQ, c.I(0), ln, intT), c.cmp(token.LEQ, ln, cp, intT), c.cmp(token.LEQ, cp, c.I(1<<47), intT)), nil, "make: 0 <= len <= cap <= 2^47")
 		et := in.Type().Underlying().(*types.Slice).Elem()
 		fr.env[in] = Val{t: x.allocSlice(st, et, ln, cp), typ: in.Type()}
 	case *ssa.Convert:
@@ -269,9 +269,9 @@ func (x *executor) allocSlice(st *state, et types.Type, ln, cp *T) *T {
 	c := x.c
 	ref := c.freshRef(st)
 	es := c.sortOf(et)
-	a := c.arrOf(st, es)
+	a := c.arrOf(st, et)
 	zeroArr := app("(as const "+arraySort(c.intSort(), es)+")", arraySort(c.intSort(), es), c.zero(et))
-	st.arrs[es] = c.name(st, "A_"+es, mkStore(a, ref, zeroArr))
+	c.setArr(st, et, mkStore(a, ref, zeroArr))
 	return c.mkSlice(ref, c.I(0), ln, cp)
 }
 
@@ -290,9 +290,7 @@ func (x *executor) checkFrame(m *machine, fr *frame, in ssa.Instruction, p *Ptr)
 	if p.kind == pkCell {
 		return
 	}
-	c := x.c
-	s := c.sortOf(p.base)
-	x.checkFrameRef(m, fr, in, p.kind == pkHeap, s, p.ref)
+	x.checkFrameRef(m, fr, in, p.kind == pkHeap, heapKey(p.base), p.ref)
 }
 
 func (x *executor) checkFrameRef(m *machine, fr *frame, in ssa.Instruction, heap bool, sort string, ref *T) {
@@ -371,13 +369,12 @@ func (x *executor) unop(m *machine, fr *frame, in *ssa.UnOp) {
 // assumeInitialWF: instance of "the initial heap holds only non-negative references"
 func (x *executor) assumeInitialWF(st *state, p *Ptr) {
 	c := x.c
-	s := c.sortOf(p.base)
 	var root *T
 	switch p.kind {
 	case pkHeap:
-		root = mkSelect(c.d.constant("H0_"+sanitize(s), arraySort("Int", s)), p.ref)
+		root = mkSelect(c.heap0(p.base), p.ref)
 	case pkElem:
-		root = mkSelect(mkSelect(c.d.constant("A0_"+sanitize(s), arraySort("Int", arraySort(c.intSort(), s))), p.ref), p.idx)
+		root = mkSelect(mkSelect(c.arr0(p.base), p.ref), p.idx)
 	default:
 		return
 	}
@@ -403,6 +400,13 @@ func (x *executor) binop(m *machine, fr *frame, in *ssa.BinOp) {
 		fr.env[in] = Val{t: x.compareVals(m, in.Op, a, b, xt, in.Y.Type()), typ: in.Type()}
 		return
 	case token.SHL, token.SHR:
+		if wy, sy, ok := intInfo(in.Y.Type()); ok && sy {
+			if _, isConst := in.Y.(*ssa.Const); !isConst {
+				nn := c.cmp(token.GEQ, b.t, c.intConst(0, wy), in.Y.Type())
+				x.oblige(m, "neg-shift", x.instrName(fr, in, "neg-shift"), nn, nil, "shift count is not negative")
+				m.st.assume(nn)
+			}
+		}
 		fr.env[in] = Val{t: c.shift(in.Op, a.t, b.t, xt, in.Y.Type()), typ: in.Type()}
 		return
 	}
@@ -622,9 +626,9 @@ func (x *executor) sliceInstr(m *machine, fr *frame, in *ssa.Slice) {
 		// (just allocated, e.g. composite literal) array: copy contents into a new backing array.
 		arrVal := c.load(st, p)
 		ref := c.freshRef(st)
-		es := c.sortOf(at.Elem())
-		a := c.arrOf(st, es)
-		st.arrs[es] = c.name(st, "A_"+es, mkStore(a, ref, arrVal.t))
+		_ = c.sortOf(at.Elem())
+		a := c.arrOf(st, at.Elem())
+		c.setArr(st, at.Elem(), mkStore(a, ref, arrVal.t))
 		x.markArrayAliased(fr, in, p)
 		r := c.mkSlice(ref, lo, c.arith(token.SUB, hi, lo, intT, nil), c.arith(token.SUB, c.I(at.Len()), lo, intT, nil))
 		fr.env[in] = Val{t: r, typ: in.Type()}
@@ -767,8 +771,8 @@ func (x *executor) stringToBytes(st *state, s *T) *T {
 	qcounter++
 	k := atom(fmt.Sprintf("k!%d", qcounter), c.intSort())
 	st.assume(app(fmt.Sprintf("forall ((%s %s))", k.op, k.sort), "Bool", mkEq(app("select", es, arr, k), app("sbyte", es, s, k))))
-	a := c.arrOf(st, es)
-	st.arrs[es] = c.name(st, "A_"+es, mkStore(a, ref, arr))
+	a := c.arrOf(st, types.Typ[types.Uint8])
+	c.setArr(st, types.Typ[types.Uint8], mkStore(a, ref, arr))
 	return c.mkSlice(ref, c.I(0), ln, ln)
 }
 
@@ -777,7 +781,7 @@ func (x *executor) bytesToString(st *state, s *T) *T {
 	es := c.bvOrInt(8)
 	// uninterpreted function of (contents, off, len) with defining axioms
 	c.d.fun("arr2str", []string{arraySort(c.intSort(), es), c.intSort(), c.intSort()}, "Str")
-	arr := mkSelect(c.arrOf(st, es), c.slRef(s))
+	arr := mkSelect(c.arrOf(st, types.Typ[types.Uint8]), c.slRef(s))
 	r := app("arr2str", "Str", arr, c.slOff(s), c.slLen(s))
 	intT := types.Typ[types.Int]
 	st.assume(mkEq(app("slen", c.intSort(), r), c.slLen(s)))
@@ -785,7 +789,7 @@ func (x *executor) bytesToString(st *state, s *T) *T {
 	k := atom(fmt.Sprintf("k!%d", qcounter), c.intSort())
 	st.assume(app(fmt.Sprintf("forall ((%s %s))", k.op, k.sort), "Bool",
 		mkImp(mkAnd(c.cmp(token.LEQ, c.I(0), k, intT), c.cmp(token.LSS, k, c.slLen(s), intT)),
-			mkEq(app("sbyte", es, r, k), app("select", es, arr, c.arith(token.ADD, c.slOff(s), k, intT, nil))))))
+			mkEq(app("sbyte", es, r, k), app("select", es, arr, c.ix(c.slOff(s), k))))))
 	return r
 }
 
